@@ -273,18 +273,35 @@ func VxC06RevertThenStore() {
 			"reorg-range-delimits-reverted-blocks")
 	}
 	vx.Assert(len(vxNewHeads) == 0 && len(vxReorgs) == 0, "nothing-announced-before-next-store")
-	// follow-up: store the remote block right above the new head
+	// follow-up: the pipeline keeps going - store the remote block right above the current head;
+	// after an interrupted revert (source failure) this attempt fails again and a second revert
+	// round runs, and so on until the common ancestor is reached and a block is stored
+	stored := false
+	for round := 0; round < 4 && !stored; round++ {
+		cb2, err2 := src.BlockByNumber(ctx, uint64(len(vxLocal)))
+		if err2 != nil {
+			continue
+		}
+		s.verifierTask(ctx, &cb2, reset)()
+		vxDrain()
+		stored = <-cb2.Persisted == nil
+	}
+	if src.failAt < 0 {
+		vx.Assert(stored, "remote-successor-stored-after-revert")
+	}
+	if !stored {
+		vx.Cover("opt:not-converged-within-the-bound")
+		return
+	}
 	if src.failAt >= 0 {
-		return
+		vx.Cover("converged-after-an-interrupted-revert")
 	}
-	cb2, err2 := src.BlockByNumber(ctx, uint64(len(vxLocal)))
-	if err2 != nil {
-		return
-	}
-	s.verifierTask(ctx, &cb2, reset)()
-	vxDrain()
-	vx.Assert(<-cb2.Persisted == nil, "remote-successor-stored-after-revert")
+	// one reorg, announced once, delimiting everything that was reverted
 	vx.Assert(len(vxReorgs) == 1 && len(vxNewHeads) == 1, "reorg-announced-once-with-next-stored-block")
+	if len(vxReorgs) == 1 && len(vxReverted) > 0 {
+		vx.Assert(vxReorgs[0].EndBlockNum == uint64(len(before)-1) && vxReorgs[0].StartBlockNum == vxReverted[len(vxReverted)-1],
+			"announced-range-delimits-everything-reverted")
+	}
 	vx.Assert(s.currReorg == nil, "reorg-state-cleared")
 }
 
